@@ -55,6 +55,6 @@ def run(ctx, clauses=None):
                                                                      "schedule_trace": [json.loads(x) for x in lines[start:v.line]]})
         ctx.violation("receiver:" + v.bad, keep, "ReceiverProp clause %s broken at trace line %d: %s" % (v.bad, v.line, lines[v.line - 1][:300]))
     for need in ("empty-datagram", "held", "shape:4"):
-        if r["named"].get(need, 0) == 0:
+        if r["named"].get(need, 0) == 0 and not ctx.violations:
             raise vlib.MachineryError("vacuity (receiver stage): %s never reached" % need)
     return {"receiver:" + k: n for k, n in r["named"].items()}
